@@ -466,7 +466,11 @@ Proof.
   assert (G : forall t, In t [fmt_dash48; fmt_colon48; fmt_cisco48; fmt_bare48] -> mac_new (spell_lower t v) = Ok v).
   { intros t Ht. destruct (fmt48_facts t Ht) as [F1 [F2 [F3 [F4 _]]]]. unfold mac_new.
     apply (parse_spell_lower _ _ 12); first [assumption | rewrite P; exact Hv]. }
-  cbn [In] in Hr. destruct Hr as [Hr|[Hr|[Hr|[Hr|[]]]]]; subst r; eexists; (split; [eassumption|]); apply G; cbn [In]; tauto.
+  cbn [In] in Hr. destruct Hr as [Hr|[Hr|[Hr|[Hr|[]]]]]; subst r.
+  - exists (spell_lower fmt_cisco48 v). split; [exact R1 | apply G; cbn [In]; tauto].
+  - exists (spell_lower fmt_dash48 v). split; [exact R2 | apply G; cbn [In]; tauto].
+  - exists (spell_lower fmt_colon48 v). split; [exact R3 | apply G; cbn [In]; tauto].
+  - exists (spell_lower fmt_dash48 v). split; [exact R4 | apply G; cbn [In]; tauto].
 Qed.
 
 Lemma mac_parse_any_spelling v t mask : v < 2 ^ 48 -> In t [fmt_dash48; fmt_colon48; fmt_cisco48; fmt_bare48] ->
@@ -549,7 +553,10 @@ Proof.
   assert (G : forall t, In t [fmt_dash64; fmt_colon64; fmt_cisco64; fmt_bare64] -> eui_new (spell_lower t v) = Ok v).
   { intros t Ht. destruct (fmt64_facts t Ht) as [F1 [F2 [F3 [F4 _]]]]. unfold eui_new.
     apply (parse_spell_lower _ _ 16); first [assumption | rewrite P; exact Hv]. }
-  cbn [In] in Hr. destruct Hr as [Hr|[Hr|[Hr|[]]]]; subst r; eexists; (split; [eassumption|]); apply G; cbn [In]; tauto.
+  cbn [In] in Hr. destruct Hr as [Hr|[Hr|[Hr|[]]]]; subst r.
+  - exists (spell_lower fmt_cisco64 v). split; [exact R1 | apply G; cbn [In]; tauto].
+  - exists (spell_lower fmt_dash64 v). split; [exact R2 | apply G; cbn [In]; tauto].
+  - exists (spell_lower fmt_colon64 v). split; [exact R3 | apply G; cbn [In]; tauto].
 Qed.
 
 Lemma eui_parse_any_spelling v t mask : v < 2 ^ 64 -> In t [fmt_dash64; fmt_colon64; fmt_cisco64; fmt_bare64] ->
